@@ -214,6 +214,49 @@ def descendant_holder(mode: int, holder: int, tgt: int, nm: int, follow: int) ->
     return True
 
 
+@harness
+def definer_change(m1: int, m2: int, tgt: int, how: int) -> bool:
+    """Chain Z <- A <- B.  Z defines r (mode m1); A overrides it (mode m2, absolute target) and the override is removed again, or
+    Z re-assigns r with another mode: A's and B's derived r must afterwards be what derivation from Z alone gives."""
+    m1, m2, tgt, how = pick(m1, 0, 2), pick(m2, 0, 2), pick(tgt, 0, 1), pick(how, 0, 1)
+    label("Z.r mode=%s target=%s; %s with mode=%s" % (MODES[m1], ("Z.foo", "Z itself")[tgt], ("A overrides then deletes", "Z re-assigns")[how], MODES[m2]))
+    with notrace():
+        m = new_model("DC")
+        Z = m.new_space("Z")
+        Z.new_cells("foo", formula="lambda: 1")
+        A = m.new_space("A", bases=Z)
+        B = m.new_space("B", bases=A)
+        target = (Z.foo, Z)[tgt]
+    c = call(Z.set_ref, "r", target, MODES[m1])
+    if not check(c[0] == "ok", "reference creation raised", lambda: c):
+        return False
+    final_mode = MODES[m1]
+    if how == 0:
+        c = call(A.set_ref, "r", target, MODES[m2])
+        if c[0] == "err":
+            return True
+        c = call(delattr, A, "r")
+        if not check(c[0] == "ok", "deleting the override raised", lambda: c):
+            return False
+    else:
+        c = call(Z.set_ref, "r", target, MODES[m2])
+        if c[0] == "err":
+            return True
+        final_mode = MODES[m2]
+    for sp in (A, B):
+        rr = call(lambda: sp.r)
+        if not check(rr[0] == "ok", "derived reference readable", lambda: rr):
+            return False
+        exp = target if final_mode == "absolute" else ((sp.foo, sp)[tgt])
+        with notrace():
+            ok = rr[1] is exp
+            md = sp._get_object("r", as_proxy=True).refmode
+            detail = (getattr(rr[1], "fullname", repr(rr[1])), exp.fullname, md)
+        if not check(ok and md == final_mode, "derived reference in %s follows the mode and target of its (new) nearest definer" % sp.name, lambda: detail):
+            return False
+    return True
+
+
 QUERIES = [
     Query("rebind", rebind, pre=["0 <= mode < 3", "0 <= place < 6", "0 <= nm < 3", "1 <= depth <= 2", "0 <= follow < 4"],
           partitions=lambda tier, seed: ([dict(mode=mo, nm=n, follow=[0, 2]) for mo in range(3) for n in range(3)] + [dict(mode=mo, nm=2, follow=3, depth=1) for mo in range(3)])
@@ -231,4 +274,10 @@ QUERIES.append(
           natives=[dict(mode=mo, holder=h, tgt=t, nm=n, follow=f) for (mo, h, t, n, f) in ((0, 0, 0, 2, 0), (0, 1, 0, 0, 1), (1, 0, 1, 2, 0), (2, 1, 4, 1, 0), (0, 0, 5, 0, 0), (1, 1, 3, 2, 1), (0, 1, 4, 2, 0))],
           bounds=lambda tier: {"holders": HOLDERS, "targets": HTARGETS, "modes": MODES, "instances": "D[1], D[2]", "follow_up": ["none", "write and read"]},
           outside=["static derivation of references held by child spaces (child spaces are not inherited)"]))
+QUERIES.append(
+    Query("definer_change", definer_change, pre=["0 <= m1 < 3", "0 <= m2 < 3", "0 <= tgt < 2", "0 <= how < 2"],
+          partitions=lambda tier, seed: [dict(how=h) for h in (0, 1)],
+          natives=[dict(m1=a, m2=b, tgt=t, how=h) for (a, b, t, h) in ((0, 2, 0, 0), (2, 0, 1, 0), (0, 2, 0, 1), (1, 2, 1, 1), (2, 1, 0, 1), (0, 0, 1, 0))],
+          bounds=lambda tier: {"chain": "Z <- A <- B", "modes": MODES, "targets": ["cells of the definer", "the definer"], "change": ["override in A then delete it", "re-assignment in Z with another mode"]},
+          outside=["deeper chains"]))
 BUDGET = {"quick": 420, "thorough": 1200}
